@@ -20,7 +20,20 @@ thread_local! {
 }
 
 /// Build the store of a shape: members = [{"kind": "res"|"set", "standoff": bool, "changed": bool}]
-pub fn build_store(shape: &Value, dir: &std::path::Path) -> AnnotationStore {
+pub fn resource_text(big: bool) -> String {
+    if big {
+        "abc\n".repeat(1_500_000)
+    } else {
+        "abc ".repeat(40) // (longer than an @include stub: see StamConcurrency!WriteOver)
+    }
+}
+
+fn res_filename(n: usize, m: &Value, renamed: bool) -> String {
+    let ext = if m["fmt"] == "txt" { "txt" } else { "resource.stam.json" };
+    format!("r{}{}.{}", n, if renamed { "b" } else { "" }, ext)
+}
+
+pub fn build_store(shape: &Value, dir: &std::path::Path, big: bool) -> AnnotationStore {
     let path = dir.join("conc.store.stam.json");
     let mut store = AnnotationStore::new(Config::default()).with_id("conc");
     store.set_filename(path.to_str().unwrap());
@@ -29,10 +42,10 @@ pub fn build_store(shape: &Value, dir: &std::path::Path) -> AnnotationStore {
     for m in shape["members"].as_array().unwrap() {
         if m["kind"] == "res" {
             nres += 1;
-            let h = store.add_resource(TextResourceBuilder::new().with_id(format!("r{}", nres)).with_text("abc")).unwrap();
+            let h = store.add_resource(TextResourceBuilder::new().with_id(format!("r{}", nres)).with_text(resource_text(big))).unwrap();
             if m["standoff"].as_bool().unwrap() {
                 let r: &mut TextResource = store.get_mut(h).unwrap();
-                r.set_filename(&format!("r{}.txt", nres));
+                r.set_filename(&res_filename(nres, m, false));
             }
         } else {
             nset += 1;
@@ -54,6 +67,11 @@ pub fn build_store(shape: &Value, dir: &std::path::Path) -> AnnotationStore {
     for m in shape["members"].as_array().unwrap() {
         if m["kind"] == "res" {
             nres += 1;
+            // a new file name for the text: the resource is 'changed' and the file does not exist yet
+            if m["standoff"].as_bool().unwrap() && m["changed"].as_bool().unwrap() {
+                let r: &mut TextResource = store.get_mut(TextResourceHandle::new(nres - 1)).unwrap();
+                r.set_filename(&res_filename(nres, m, true));
+            }
         } else {
             nset += 1;
             if m["changed"].as_bool().unwrap() {
@@ -61,9 +79,96 @@ pub fn build_store(shape: &Value, dir: &std::path::Path) -> AnnotationStore {
                 s.insert_data(BuildItem::None, "k1", DataValue::from(format!("w{}", nset)), true).unwrap();
             }
         }
-        let _ = nres;
     }
     store
+}
+
+/// the state of every member's stand-off file: "none" (inline member), "missing", "complete", "corrupt"
+pub fn files_state(shape: &Value, dir: &std::path::Path, big: bool) -> Value {
+    let mut nres = 0;
+    let mut nset = 0;
+    let mut out = Vec::new();
+    for m in shape["members"].as_array().unwrap() {
+        let isres = m["kind"] == "res";
+        if isres {
+            nres += 1;
+        } else {
+            nset += 1;
+        }
+        if !m["standoff"].as_bool().unwrap() {
+            out.push("none");
+            continue;
+        }
+        let name = if isres { res_filename(nres, m, m["changed"].as_bool().unwrap()) } else { format!("s{}.annotationset.stam.json", nset) };
+        let state = match std::fs::read_to_string(dir.join(&name)) {
+            Err(_) => "missing",
+            Ok(content) => {
+                if isres && m["fmt"] == "txt" {
+                    if content == resource_text(big) { "complete" } else { "corrupt" }
+                } else {
+                    match serde_json::from_str::<Value>(&content) {
+                        _ if content.is_empty() => "empty",
+                        Ok(v) if v.get("@include").is_some() => "selfinclude",
+                        Ok(v) if v.get("@type").is_some() => "complete",
+                        _ => {
+                            if std::env::var("VERIF_DEBUG_FILES").is_ok() {
+                                eprintln!("corrupt {}: {:?}", name, &content[..content.len().min(300)]);
+                            }
+                            "corrupt"
+                        }
+                    }
+                }
+            }
+        };
+        out.push(state);
+    }
+    // nothing but the stand-off files and the store file may be left behind
+    json!(out)
+}
+
+/// C20, free-running: the threads are released together and run without a scheduler; the hook only records the tags
+pub fn run_free(shape: &Value, ops: &[Value], big: bool, dir: &std::path::Path) -> Value {
+    let store = build_store(shape, dir, big);
+    let n = ops.len();
+    let tags: Arc<Mutex<Vec<Vec<String>>>> = Arc::new(Mutex::new(vec![vec![]; n]));
+    {
+        let tags = tags.clone();
+        verif::set_yield_hook(Some(Box::new(move |tag: &'static str| {
+            let me = THREAD_INDEX.with(|c| c.get());
+            if me != usize::MAX {
+                tags.lock().unwrap()[me].push(tag.to_string());
+            }
+        })));
+    }
+    let barrier = std::sync::Barrier::new(n);
+    let outs: Vec<Value> = std::thread::scope(|scope| {
+        let mut handles = Vec::new();
+        for (i, op) in ops.iter().enumerate() {
+            let store = &store;
+            let barrier = &barrier;
+            handles.push(scope.spawn(move || {
+                THREAD_INDEX.with(|c| c.set(i));
+                barrier.wait();
+                run_op(store, op)
+            }));
+        }
+        handles.into_iter().map(|h| h.join().unwrap_or(json!(["panic"]))).collect()
+    });
+    verif::set_yield_hook(None);
+    let t = tags.lock().unwrap();
+    let leftovers = leftover_files(dir);
+    json!({"has": true, "threads": (0..n).map(|i| json!({"tags": t[i], "forms": outs[i]})).collect::<Vec<_>>(),
+           "files": files_state(shape, dir, big), "leftovers": leftovers})
+}
+
+/// files in the work directory that are neither the store nor a stand-off member
+fn leftover_files(dir: &std::path::Path) -> Vec<String> {
+    let mut v: Vec<String> = std::fs::read_dir(dir)
+        .map(|rd| rd.filter_map(|e| e.ok()).map(|e| e.file_name().to_string_lossy().to_string()).collect())
+        .unwrap_or_default();
+    v.retain(|f| !(f.ends_with(".stam.json") || f.ends_with(".txt")));
+    v.sort();
+    v
 }
 
 fn run_op(store: &AnnotationStore, op: &Value) -> Value {
@@ -99,7 +204,7 @@ fn run_op(store: &AnnotationStore, op: &Value) -> Value {
 /// Execute ops (one per thread) under the schedule (sequence of 1-based thread indices; each entry lets that thread run
 /// to its next yield point). Returns per thread: tags passed and the forms of its output.
 pub fn run(shape: &Value, ops: &[Value], schedule: &[usize], dir: &std::path::Path) -> Value {
-    let store = build_store(shape, dir);
+    let store = build_store(shape, dir, false);
     let n = ops.len();
     let state = Arc::new((Mutex::new(Sched { turn: usize::MAX, parked: vec![false; n], finished: vec![false; n], tags: vec![vec![]; n] }), Condvar::new()));
     {
@@ -174,5 +279,6 @@ pub fn run(shape: &Value, ops: &[Value], schedule: &[usize], dir: &std::path::Pa
     });
     verif::set_yield_hook(None);
     let s = state.0.lock().unwrap();
-    json!({"has": true, "threads": (0..n).map(|i| json!({"tags": s.tags[i], "forms": outs[i]})).collect::<Vec<_>>()})
+    json!({"has": true, "threads": (0..n).map(|i| json!({"tags": s.tags[i], "forms": outs[i]})).collect::<Vec<_>>(),
+           "files": files_state(shape, dir, false), "leftovers": leftover_files(dir)})
 }
